@@ -171,6 +171,17 @@ def run_check(prop, tier, seed, bounded=True):
         cres = lemma.run_lemmas(prop, pm.canary(), timeout_ms)
         canary_ok = all(c['status'] == 'violated' for c in cres) and len(cres) > 0
 
+    # CPython cross-check of the engine's interpreter semantics on concrete calls of real functions (selftest/crosscheck.py)
+    cross = None
+    if prop in ('C03', 'C05', 'C19'):
+        try:
+            pc_ = subprocess.run([os.path.join(VERIF, 'selftest', 'crosscheck.py'), str(seed)], capture_output=True, text=True, timeout=600,
+                                 env=dict(os.environ, VERIF_REPO=os.environ.get('VERIF_REPO', '/repo')))
+            line = [l for l in pc_.stdout.splitlines() if l.startswith('crosscheck:')]
+            cross = {'exit': pc_.returncode, 'summary': line[-1] if line else pc_.stderr[-300:], 'disagreements': [l for l in pc_.stdout.splitlines() if 'DISAGREE' in l][:5]}
+        except Exception as e:
+            cross = {'exit': 3, 'summary': f'{type(e).__name__}: {e}'}
+
     # bounded stage (never counted as proved)
     bres = None
     if bounded:
@@ -237,8 +248,10 @@ def run_check(prop, tier, seed, bounded=True):
                 json.dump({'property': prop, 'stage': 'bounded', 'failure': fl, 'tier': tier}, f, indent=1)
             out_lines.append(f'VIOLATION property={prop} replay={rp}')
             replay_paths.append(rp)
-    elif crashes or vacuous or not all_obs or canary_ok is False or (bres and bres.get('error')):
+    elif crashes or vacuous or not all_obs or canary_ok is False or (bres and bres.get('error')) or (cross and cross['exit'] != 0):
         exit_code = 3
+        if cross and cross['exit'] != 0:
+            out_lines.append(f"CHECKER-ERROR engine disagrees with CPython on concrete calls: {cross['summary']}")
         for c in crashes:
             out_lines.append(f'CHECKER-ERROR {c}')
         for v in vacuous:
@@ -288,6 +301,7 @@ def run_check(prop, tier, seed, bounded=True):
             'undecided': undecided + [o['name'] for o in und_obs],
             'violated': sorted(set(o['name'] for o in violated)),
             'canary_refuted': canary_ok,
+            'cpython_crosscheck': cross,
             'known_findings_matched': known_lines,
             'assumption_scan': scan_assumptions() if tier == 'thorough' else f'{len(scan_assumptions())} markers (listed in thorough tier)',
             'bounded': bres if bres else 'none for this property',
